@@ -15,7 +15,7 @@ from collections import Counter
 
 from common import LEAN, Driver, Report, check_proofs, proof_coverage, rng
 from gen import Cfg, G, required_version
-from pipeline import Case, exec_diff, replay_case
+from pipeline import Case, exec_diff, load_corpus, replay_case
 
 PROOF_MODULES = ["PyTealV.Proofs.Sim", "PyTealV.Proofs.Shape", "PyTealV.Proofs.C01"]
 TRUSTED = [
@@ -51,15 +51,21 @@ def run(tier: str) -> int:
     stats, gstats = Counter(), Counter()
     samples, programs, validated, disagreements = [], 0, 0, 0
     distinct = set()
-    for i in range(cfg["nprog"]):
-        mode = r.choice(["app", "app", "sig"])
-        ver = r.choice([2, 3, 4, 5, 6, 7, 8, 9, 10])
-        g = G(r, Cfg(mode=mode, version=ver, subs=0, max_depth=r.choice([2, 3, 4, 5]), max_stmts=r.choice([2, 4, 6])))
-        p = g.program()
-        for k, v in g.stats.items():
-            gstats[k.split(":")[0]] += v
-        need = required_version(p.main)
-        versions = sorted({ver, r.choice([v for v in range(2, 11) if v >= need] or [ver])})
+    corpus = load_corpus("C01")
+    stats["corpus programs"] = len(corpus)
+    for i in range(-len(corpus), cfg["nprog"]):
+        if i < 0:
+            _name, p, v0, _o = corpus[i + len(corpus)]
+            mode, versions = p.mode, [v0]
+        else:
+            mode = r.choice(["app", "app", "sig"])
+            ver = r.choice([2, 3, 4, 5, 6, 7, 8, 9, 10])
+            g = G(r, Cfg(mode=mode, version=ver, subs=0, max_depth=r.choice([2, 3, 4, 5]), max_stmts=r.choice([2, 4, 6])))
+            p = g.program()
+            for k, v in g.stats.items():
+                gstats[k.split(":")[0]] += v
+            need = required_version(p.main)
+            versions = sorted({ver, r.choice([v for v in range(2, 11) if v >= need] or [ver])})
         for v in versions:
             case = Case(d, p, v, **opts_for(v))
             stats[f"compile:{case.res[0]}"] += 1
